@@ -397,6 +397,11 @@ def _dominates_exit(stmt, fnode):
 def check(ctx):
     repo = ctx.repo
     cg = CallGraph(repo)
+    ctx.rule("C19-R7", "per-table state: no class of the table module keeps a container in its class body that methods write in place without __init__ rebinding it (a class-level insert buffer is shared by all tables: rows inserted into one table surface in another)")
+    from ..common import check_no_class_level_containers
+    k = check_no_class_level_containers(ctx, repo, "C19-R7", [(MOD, c) for c in repo.module(MOD).classes],
+                                        "rows buffered for one table are merged into whichever table is read first")
+    ctx.floor("C19-R7", "classes of the table module inspected", k, 1)
     cname, buf, flush = discover_table(repo)
     frame = frame_attr(repo, cname, flush)
     m = repo.module(MOD)
